@@ -26,6 +26,18 @@ CLAIMED = {
    text="Bounded model checking of tax.Total Merge/Negate/Clone and bill.Payment.calculate with z3 over a family of summary shapes (1-2 rate groups from six kinds incl. surcharges, exempt and extension-qualified rows, optional category surcharge, optional retained category) with ALL amounts symbolic: component-wise sums per category and rate group in both operand orders, sign flip of every amount incl. surcharges, merge-with-negation is zero, operands frozen (no store into an operand, result shares no mutable cell), payment total = sum of debit - credit converted with the declared rate, payment tax summary = merge of the documents' summaries.",
    note="Assumes go/ssa faithful, z3 sound, native currency registry import. Amounts of corresponding rows carry equal exponents (2 decimals); payment stage uses the C05-proven summaries of Rescale/Multiply/Divide (lemmas re-run first). Defects found and fixed: 0ae6075, a892f76, cea7416.",
    ref="DESIGN.md 5 (C20)"),
+ "C02": dict(
+   text="Bounded model checking of tax.TotalCalculator.Calculate / Total.Calculate with z3 over families of taxable lines (explicit-percentage combos with every combination of exempt / surcharge / extension / country override, a retained category with surcharge, tax-included category, both rounding rules; Spanish keyed rates from the natively imported regime): every contribution sits in exactly one rate group (groups distinguished by country, percentage, surcharge, extensions, exempt rows apart), group base = sum of its contributions, amount and surcharge = percentage of base, category = sum of groups, tax sum = ordinary - retained incl. surcharges, rounding only at the documented points; totals symbolic.",
+   note="Assumes go/ssa faithful, z3 sound; amount arithmetic by the C05-proven summaries (lemmas re-run first); quick tier draws percentage values from {21.0, 10.0} / {5.2, 1.4} (equal and different pairs), thorough makes them symbolic. Bounds: 2 lines (thorough 3), <= 2 combos per line.",
+   ref="DESIGN.md 5 (C02)"),
+ "C03": dict(
+   text="Bounded model checking of bill.calculate under the 'currency' rounding rule with z3 over invoice skeletons (1-2 lines, optional percent/fixed line discount, percent/rate/fixed line charge, document discount and charge, advances and percentage due date, tax-included prices) with ALL prices and fixed amounts symbolic: every presented figure re-adds exactly from the other presented figures (line total, document sum, total, rate amounts from presented bases, category and tax sums, total with tax, payable, due) and no figure carries more decimals than the currency. Laws on the output alone.",
+   note="Assumes go/ssa faithful, z3 sound; amount arithmetic by the C05-proven summaries; quantities from a covering set in quick (symbolic in thorough); fixed amounts at currency precision (the property's assumption). Outside: > 2 lines, sub-line breakdowns, foreign-currency items, rule selection by regime default.",
+   ref="DESIGN.md 5 (C03)"),
+ "C04": dict(
+   text="Numeric core only: bounded model checking (z3) that calculating an already calculated invoice skeleton again changes no amount, precision or index (fixpoint), for all symbolic prices/amounts, both rounding rules. Whole-document JSON byte identity, struct-tag (un)marshalling and string normalisers are outside the claim (reflection/regexp over unbounded strings); amount/percentage codec losslessness is C06.",
+   note="Assumes go/ssa faithful, z3 sound; C05 summaries. Known finding (open): fixed amounts supplied with more decimals than they are presented at are rounded in place, so recalculation changes totals (class C04-fixed-amount-rounded-in-place).",
+   ref="DESIGN.md 5 (C04), 6"),
 }
 
 NA = {
